@@ -26,10 +26,11 @@ BaseP == [Base(4, 2, 2, 2, 3, 10) EXCEPT !.degs = <<1, 3>>, !.pcol = <<0, 1>>, !
 BaseA == [Base(4, 3, 2, 2, 3, 10) EXCEPT !.k = 4, !.nasserts = 6]
 
 \* base statements with an auxiliary segment: running sum and product columns with all auxiliary assertion templates; the
-\* smallest trace with a Lagrange kernel column; fewer random elements than columns, product column first, two exemptions
+\* smallest trace with a Lagrange kernel column; fewer random elements than columns, product column first, two exemptions,
+\* cubic extension of the 62-bit field
 BaseX1 == [Base(4, 2, 2, 2, 3, 10) EXCEPT !.auxd = <<1, 2>>, !.auxr = 2, !.nauxa = 3, !.nasserts = 7]
 BaseX2 == [Base(3, 1, 1, 2, 0, 3) EXCEPT !.auxd = <<1>>, !.auxr = 1, !.lag = 1, !.nauxa = 2]
-BaseX3 == [Base(5, 3, 3, 2, 3, 20) EXCEPT !.auxd = <<2, 1, 1>>, !.auxr = 1, !.lag = 1, !.nauxa = 3, !.k = 2]
+BaseX3 == [Base(5, 3, 3, 2, 3, 20) EXCEPT !.auxd = <<2, 1, 1>>, !.auxr = 1, !.lag = 1, !.nauxa = 3, !.k = 2, !.ext = 3, !.bits = 62]
 
 Init == /\ t \in {Base(3, 1, 1, 2, 0, 3), Base(4, 2, 2, 4, 7, 8), Base(5, 3, 3, 2, 3, 20), Base(6, 8, 3, 8, 31, 12), BaseP, BaseA,
                   BaseX1, BaseX2, BaseX3}
@@ -59,7 +60,7 @@ Variants(s) ==
     \cup {[s EXCEPT !.auxr = x] : x \in {0, 1, 2, 5}}
     \cup {[s EXCEPT !.lag = x] : x \in {0, 1}}
     \cup {[s EXCEPT !.nauxa = x] : x \in 1..3}
-    \cup {[s EXCEPT !.meta = x] : x \in {0, 1, 7, 8}}      \* trace metadata: none, below / at / above one seed element of the 64-bit field
+    \cup {[s EXCEPT !.meta = x] : x \in {0, 1, 7, 8, 65535}}      \* trace metadata: none, below / at / above one seed element of the 64-bit field
 
 Next == /\ d < Depth
         /\ \E s \in Variants(t) : s # t /\ Admissible(s) /\ t' = s
@@ -90,6 +91,7 @@ AuxCorruptions == IF IOEnv.ST_SOUND = "1"
                   ELSE <<>>
 Emit == PrintT(ToJson([t |-> t, asserts |-> Asserts(t), corruptions |-> Corruptions,
                         auxasserts |-> AuxAsserts(t), auxcorruptions |-> AuxCorruptions,
-                        ccols |-> NumCompositionCols(Effective(t)), layers |-> NumFriLayers(t)]))
+                        ccols |-> NumCompositionCols(Effective(t)), layers |-> NumFriLayers(t),
+                        layout |-> [u \in {1} |-> Layout(Effective(t), 1)][1]]))
 View == t
 =============================================================================
